@@ -213,17 +213,29 @@ func (e *c04Exec) subRun(z zoneCfg) (out []string, sdig string, infra string) {
 		r := &runCtx{c: c, stats: &v.Stats, in: in}
 		setRun(r)
 		defer setRun(nil)
+		compileOptCache = nil
+		if c.Knobs.ReuseOpts {
+			compileOptCache = map[string]fhirpath.CompileOption{}
+			in.evalOptCache = map[string]fhirpath.EvaluateOption{}
+			v.Stats.probe("option-values-reused")
+		}
+		defer func() { compileOptCache = nil }()
 
 		// --- compile history (root only) ---
 		for hi := range c.History {
 			h := compile(c.History[hi].Prog, &v.Stats)
+			// whatever that Compile did - succeed or fail - the very next Compile starts from the
+			// built-in functions only: an experimental function does not resolve without the option
+			e.experimentalProbe(fmt.Sprintf("after history[%d] %q %+v", hi, c.History[hi].Prog.Src, c.History[hi].Prog.Opts))
 			e.checkCompileModel(fmt.Sprintf("history[%d]", hi), h)
+			e.checkOptionValueMemory(fmt.Sprintf("history[%d]", hi), h)
 		}
 		e.checkTables("after history")
 		progs := make([]*compiled, len(c.Programs))
 		for i := range c.Programs {
 			progs[i] = compile(c.Programs[i], &v.Stats)
 			e.checkCompileModel(fmt.Sprintf("program[%d]", i), progs[i])
+			e.checkOptionValueMemory(fmt.Sprintf("program[%d]", i), progs[i])
 		}
 		if z.eval != z.compile {
 			if err := setLocal(z.eval); err != nil {
@@ -316,6 +328,7 @@ func (e *c04Exec) subRun(z zoneCfg) (out []string, sdig string, infra string) {
 			e.checkCompileModel("mid-flight", m)
 		}
 
+		compileOptCache = nil // the isolated reference and the probes below use option values of their own
 		// --- clock jump between the passes ---
 		time.Sleep(time.Duration(c.Knobs.GapDays) * 24 * time.Hour)
 
@@ -569,6 +582,48 @@ func diffNames(a, b map[string]bool) string {
 		return "same names, different arity or implementation"
 	}
 	return strings.Join(d, " ")
+}
+
+// checkOptionValueMemory: when option values are reused between Compile calls and a Compile
+// fails, the same source with freshly built option values must fail too - an option value must
+// not remember what an earlier Compile did with it.
+func (e *c04Exec) checkOptionValueMemory(where string, p *compiled) {
+	if compileOptCache == nil || p.err == nil || p.panic != "" {
+		return
+	}
+	saved := compileOptCache
+	compileOptCache = nil
+	fresh := compile(p.spec, nil)
+	compileOptCache = saved
+	e.v.Stats.probe("option-value-memory-checked")
+	if fresh.err == nil && fresh.panic == "" {
+		e.violate("compile-isolation", "option-value-remembers", fmt.Sprintf("%s: Compile(%q, %+v) fails with option values that earlier Compile calls have seen (%v) but succeeds with freshly built, identical options", where, p.spec.Src, p.spec.Opts, p.err))
+	}
+}
+
+// experimentalProbe: a Compile without options must not resolve an experimental-only function.
+func (e *c04Exec) experimentalProbe(when string) {
+	saved := compileOptCache
+	compileOptCache = nil
+	defer func() { compileOptCache = saved }()
+	for n := range processTables.exp {
+		if processTables.base[n] {
+			continue
+		}
+		var err error
+		func() {
+			defer func() {
+				if p := recover(); p != nil {
+					err = fmt.Errorf("panic: %v", p)
+				}
+			}()
+			_, err = fhirpath.Compile(n + "()")
+		}()
+		if err == nil {
+			e.violate("compile-isolation", "leak", fmt.Sprintf("%s: the experimental function %q resolves in a Compile without WithExperimentalFuncs", when, n))
+		}
+		e.v.Stats.probe("experimental-probe")
+	}
 }
 
 // leakProbes: a function registered through an option must exist only in the
